@@ -202,7 +202,7 @@ P makePoint(const std::array<S, D> & a, S w)
 }
 
 template<typename P, typename S, int D>
-Eigen::Matrix<S, D + 1, D + 1> solve(const CaseData<S, D> & cd, bool pre, bool aligned, bool warm = false)
+Eigen::Matrix<S, D + 1, D + 1> solve(const CaseData<S, D> & cd, bool pre, bool aligned, bool warm = false, bool copied = false)
 {
   PointSet<P> src, tgt;
   NormalSet<P> nrm;
@@ -248,10 +248,20 @@ Eigen::Matrix<S, D + 1, D + 1> solve(const CaseData<S, D> & cd, bool pre, bool a
     }
   }
   if (!pre) {
+    if (copied) {
+      FindRigidTransformationByLeastSquares<P> est2(est);   // value semantics: a copy of the estimator is the estimator
+      return aligned ? est2.find(src, tgt, nrm) : est2.find(src, tgt, nrm, corr);
+    }
     return aligned ? est.find(src, tgt, nrm) : est.find(src, tgt, nrm, corr);
   }
   PreconditionedPointSet<P> ps(src, cd.k), pt(tgt, cd.k);
   est.setPreconditioner(ps, pt);
+  if (copied) {
+    FindRigidTransformationByLeastSquares<P> est2(est);     // configured, then copied (e.g. stored in a vector)
+    FindRigidTransformationByLeastSquares<P> est3;
+    est3 = est2;                                            // ... and assigned
+    return aligned ? est3.find(ps, pt, nrm) : est3.find(ps, pt, nrm, corr);
+  }
   return aligned ? est.find(ps, pt, nrm) : est.find(ps, pt, nrm, corr);
 }
 
@@ -438,6 +448,8 @@ void body(vf::Ctx & c)
   c.nontrivial(theta != 0 && n >= 2 * p);
   const int reuseVariant = static_cast<int>(c.s.i("reused_estimator_variant", 0, 3));   // (aligned, homogeneous) bits
   c.label("estimator-reused(larger-problem-first)");
+  const bool estimatorCopied = c.s.flag("estimator_copied_after_configuration");
+  if (estimatorCopied) {c.label("estimator-copied-after-configuration");}
   c.commit();
 
   // ---------------- execution: 8 solves ----------------
@@ -541,7 +553,7 @@ void body(vf::Ctx & c)
     const Ref & R = ip ? pre : raw;
     if (!R.checked) {continue;}
     const int ia = reuseVariant & 1, ih = (reuseVariant >> 1) & 1;
-    Eigen::Matrix<S, D + 1, D + 1> M = ih ? solve<Homo, S, D>(cd, ip != 0, ia != 0, true) : solve<Cart, S, D>(cd, ip != 0, ia != 0, true);
+    Eigen::Matrix<S, D + 1, D + 1> M = ih ? solve<Homo, S, D>(cd, ip != 0, ia != 0, true, estimatorCopied) : solve<Cart, S, D>(cd, ip != 0, ia != 0, true, estimatorCopied);
     std::vector<LD> xs = readBack<S, D>(c, M, std::string("reused estimator, ") + names[ip][ia][ih]);
     for (int d = 0; d < D; ++d) {xs[d] *= R.scale;}
     const LD d = dist(res[ip][ia][ih].x, xs, 1, 1);
